@@ -130,6 +130,9 @@ package hessian
 //@   ensures [C02,C05:clsdef-registered] err == nil ==> result0 == len(old(e.clsDefList)) && len(e.clsDefList) == len(old(e.clsDefList)) + 1 && e.clsDefList[result0].FullClassName == clsName
 
 //@ func (*Encoder).writeObject
+//@   ensures [C04:refs-grow] mapsize(e.refMap) >= old(mapsize(e.refMap))
+//@   loop 1 invariant [C04:registered-before-children] mapsize(e.refMap) >= old(mapsize(e.refMap)) + 1
+//@   depth [C04:encode-depth] rank 1 measure 1099511627776 - mapsize(e.refMap)
 //@   requires e.nameMap != nil && e.refMap != nil
 //@   requires mapsize(e.refMap) + @clashes == @opens
 //@   assigns @out, @W, @E, @nwrites, @tr, @opens, @clashes, @lastwriter, @startcls, @startrefs, e.clsDefList, mapof(e.refMap), mapof(e.nameMap)
@@ -150,6 +153,9 @@ package hessian
 //@   ensures [C04:inv-ordinals]          err == nil ==> mapsize(e.refMap) + @clashes == @opens
 
 //@ func (*Encoder).writeList
+//@   ensures [C04:refs-grow] mapsize(e.refMap) >= old(mapsize(e.refMap))
+//@   loop 1 invariant [C04:registered-before-children] mapsize(e.refMap) >= old(mapsize(e.refMap)) + 1
+//@   depth [C04:encode-depth] rank 1 measure 1099511627776 - mapsize(e.refMap)
 //@   requires e.nameMap != nil && e.refMap != nil
 //@   requires mapsize(e.refMap) + @clashes == @opens
 //@   assigns @out, @W, @E, @nwrites, @tr, @opens, @clashes, @lastwriter, @startcls, @startrefs, e.clsDefList, mapof(e.refMap), mapof(e.nameMap)
@@ -170,6 +176,9 @@ package hessian
 //@   ensures [C04:inv-ordinals]              err == nil ==> mapsize(e.refMap) + @clashes == @opens
 
 //@ func (*Encoder).writeMap
+//@   ensures [C04:refs-grow] mapsize(e.refMap) >= old(mapsize(e.refMap))
+//@   loop 1 invariant [C04:registered-before-children] mapsize(e.refMap) >= old(mapsize(e.refMap)) + 1
+//@   depth [C04:encode-depth] rank 1 measure 1099511627776 - mapsize(e.refMap)
 //@   requires e.nameMap != nil && e.refMap != nil
 //@   requires mapsize(e.refMap) + @clashes == @opens
 //@   assigns @out, @W, @E, @nwrites, @tr, @opens, @clashes, @lastwriter, @startcls, @startrefs, e.clsDefList, mapof(e.refMap), mapof(e.nameMap)
@@ -184,6 +193,7 @@ package hessian
 //@   loop 1 invariant [C04:inv-ordinals] mapsize(e.refMap) + @clashes == @opens
 //@   loop 2 invariant [C15,C13:flags-loop] 0 <= i && (@W ==> old(@W)) && (@E ==> old(@E))
 //@   loop 2 invariant [C04:inv-ordinals] mapsize(e.refMap) + @clashes == @opens
+//@   loop 2 invariant [C04:registered-before-children] mapsize(e.refMap) >= old(mapsize(e.refMap)) + 1
 //@   ensures [C15:W] (@W && !old(@W)) ==> err != nil
 //@   ensures [C13:E] (@E && !old(@E)) ==> err != nil
 //@   ensures [C02,C04:map-null]            err == nil && gnull ==> @tr == snoc(old(@tr), TByte('N')) && @opens == old(@opens) && mapsize(e.refMap) == old(mapsize(e.refMap))
@@ -191,6 +201,8 @@ package hessian
 //@   ensures [C04:inv-ordinals]            err == nil ==> mapsize(e.refMap) + @clashes == @opens
 
 //@ func (*Encoder).WriteData
+//@   ensures [C04:refs-grow] mapsize(e.refMap) >= old(mapsize(e.refMap))
+//@   depth [C04:encode-depth] rank 2 measure 1099511627776 - mapsize(e.refMap)
 //@   requires e.nameMap != nil && e.refMap != nil
 //@   requires mapsize(e.refMap) + @clashes == @opens
 //@   assigns @out, @W, @E, @nwrites, @tr, @opens, @clashes, @lastwriter, @startcls, @startrefs, e.clsDefList, mapof(e.refMap), mapof(e.nameMap)
